@@ -12,13 +12,17 @@ from __future__ import annotations
 
 import vlib.boot  # noqa: F401
 from vlib.boot import B, drive
+from vlib.h_idle import install_speedups
+from vlib.h_handlers import conc  # noqa: F401  (imported at module level: registers its CrossHair patch before the analysis starts)
 from vlib.ob import obligation
 from vlib.world import (
     EVA, EVB, EVC, MYSTOP, STOP, EvA, EvB, EvC, MyStop, StartEvent, StubPolicy, world_ab, world_ab_valid,
 )
 
+from workflows import Context, Workflow, step  # noqa: F401  (module scope: step annotations are resolved against it)
 from workflows.errors import WorkflowCancelledByUser, WorkflowTimeoutError
 from workflows.events import (
+    Event,
     StopEvent, WorkflowCancelledEvent, WorkflowFailedEvent, WorkflowTimedOutEvent,
 )
 from workflows.runtime.control_loop import _ControlLoopRunner, _reduce_tick
@@ -30,6 +34,8 @@ from workflows.runtime.types.results import AddCollectedEvent, StepWorkerFailed,
 from workflows.runtime.types.ticks import (
     TickAddEvent, TickCancelRun, TickIdleCheck, TickStepResult, TickTimeout, TickWaiterTimeout,
 )
+
+install_speedups()  # tooling only (logging off, native reflection of workflow classes); see vlib.h_idle
 
 ENCODED = [
     "workflows.runtime.control_loop:_reduce_tick",
@@ -359,3 +365,85 @@ def ob_whole_run_terminal(mode: int, c0: int, c1: int, c2: int, c3: int, c4: int
     terms = [e for e in published if _terminal_kind(e) != 0]
     want = {"result": 1, "failed": 2, "cancel": 3, "timeout": 4}[outcome[0][0]]
     return len(outcome) == 1 and len(terms) == 1 and published[-1] is terms[0] and _terminal_kind(terms[0]) == want
+
+
+class SibEv(Event):
+    """module level: step annotations are resolved against the module scope"""
+
+    i: int
+
+
+@obligation(quick=240, thorough=900,
+            partitions_quick=[f"c0 == {a} and c1 == {b}" for a in range(3) for b in range(3)],
+            partitions_thorough=[f"c0 == {a} and c1 == {b} and c2 == {c}" for a in range(3) for b in range(3) for c in range(3)],
+            what="whole run (real run() loop on the virtual-time loop): one worker returns a StopEvent while its sibling is still in flight and "
+                 "writes to the stream WHEN IT IS CANCELLED (try/finally, except CancelledError): nothing is published after the StopEvent",
+            bounds={"schedule decisions": "3 (quick) / 5 (thorough), 3 options each", "workers": 2, "sibling": "streams on cancellation: in finally / in except CancelledError + re-raise / swallows the cancellation"})
+def ob_stop_vs_sibling_cleanup(c0: int, c1: int, c2: int, c3: int, c4: int, style: int) -> bool:
+    """
+    pre: 0 <= c0 <= 2 and 0 <= c1 <= 2 and 0 <= c2 <= 2 and 0 <= c3 <= 2 and 0 <= c4 <= 2 and 0 <= style <= 2
+    pre: THOROUGH_SIB or (c3 == 0 and c4 == 0)
+    post: _
+    """
+    import asyncio
+
+    from vlib.sched import Env, SymAdapter, SymRuntime, run_loop
+    from workflows import Context, Workflow, step
+    from workflows.events import Event
+
+    style, c0, c1, c2, c3, c4 = conc(style, 0, 2), conc(c0, 0, 2), conc(c1, 0, 2), conc(c2, 0, 2), conc(c3, 0, 2), conc(c4, 0, 2)
+    env = Env([c0, c1, c2, c3, c4])  # concrete by now: every solver decision is taken before the scenario starts
+    published: list = []
+
+    class RecAdapter(SymAdapter):
+        async def write_to_event_stream(self, event) -> None:
+            published.append(event)
+            await super().write_to_event_stream(event)
+
+    class Rt(SymRuntime):
+        def get_internal_adapter(self, workflow):
+            return RecAdapter(super().get_internal_adapter(workflow), self.env)
+
+    class W(Workflow):
+        @step
+        async def start(self, ctx: Context, ev: StartEvent) -> SibEv | None:
+            ctx.send_event(SibEv(i=0))
+            ctx.send_event(SibEv(i=1))
+            return None
+
+        @step(num_workers=2)
+        async def work(self, ctx: Context, ev: SibEv) -> StopEvent | None:
+            if ev.i == 0:
+                await env.gate(0)
+                return StopEvent(result=0)
+            if style == 0:
+                try:
+                    await env.gate(1)
+                finally:
+                    ctx.write_event_to_stream(SibEv(i=21))
+                return None
+            try:
+                await env.gate(1)
+            except asyncio.CancelledError:
+                ctx.write_event_to_stream(SibEv(i=21))
+                if style == 1:
+                    raise
+            return None
+
+    outcome: list = []
+
+    async def main():
+        h = W(timeout=None, runtime=Rt(env)).run(run_id="r")
+        try:
+            outcome.append(("result", await h))
+        except Exception as e:  # noqa: BLE001
+            outcome.append(("other", e))
+        for _ in range(20):  # let every straggler run: nothing may reach the stream after the terminal event
+            await asyncio.sleep(0)
+
+    run_loop(main)
+    terms = [e for e in published if _terminal_kind(e) != 0]
+    return len(outcome) == 1 and outcome[0][0] == "result" and len(terms) == 1 and published[-1] is terms[0] and _terminal_kind(terms[0]) == 1
+
+
+THOROUGH_SIB = B(False, True)
